@@ -421,3 +421,88 @@ def from_compressed(vc):
         vc.prove("rejected=>MalformedPointError", out.raised(EL.MalformedPointError), repr(out.exc))
         if vc.symbolic:
             vc.prove("rejected=>no-root", vc.Not(exists))
+
+
+# ---------------------------------------------------------------------------------------
+# PEM is the armour of EXACTLY the DER that the same options produce: to_pem(*options) == topem(to_der(*options), label)
+# (the DER encoder is stubbed and records the options it is given; every option must be handed over)
+
+@proof("C19/to_pem=armour-of-to_der(same-options)", functions=[(KEYS, "VerifyingKey.to_pem"), (KEYS, "SigningKey.to_pem")],
+       family=lambda seed, tier: [dict(pe=pe, cpe=cpe, fmt=fmt) for pe in ("uncompressed", "compressed", "hybrid")
+                                  for cpe in (None, "named_curve", "explicit") for fmt in ("ssleay", "pkcs8")])
+def to_pem_forwards(vc):
+    K = vc.module(KEYS)
+    D = vc.module(DER)
+    C = vc.module("register_crypto_plugin.ecdsa.curves")
+    pe = vc.choice("pe", ["uncompressed", "compressed", "hybrid"])
+    cpe = vc.choice("cpe", [None, "named_curve", "explicit"])
+    fmt = vc.choice("fmt", ["ssleay", "pkcs8"])
+    sk = K.SigningKey.from_secret_exponent(0x1234567, C.NIST192p)
+    vk = sk.verifying_key
+    if vc.symbolic:
+        calls = []
+        vk.to_der = lambda *a, **k: (calls.append((a, k)), b"PUBLIC-DER-BYTES")[1]
+        out = vk.to_pem(pe, cpe)
+        vc.prove("public.armour-of-what-to_der-returned", out == D.topem(b"PUBLIC-DER-BYTES", "PUBLIC KEY"))
+        got = calls[0] if calls else ((), {})
+        args = dict(zip(("point_encoding", "curve_parameters_encoding"), got[0]))
+        args.update(got[1])
+        vc.prove("public.every-option-handed-to-to_der", len(calls) == 1 and args.get("point_encoding") == pe
+                 and args.get("curve_parameters_encoding") == cpe, repr(got))
+        calls2 = []
+        sk.to_der = lambda *a, **k: (calls2.append((a, k)), b"PRIVATE-DER-BYTES")[1]
+        out2 = sk.to_pem(pe, fmt, cpe)
+        label = "EC PRIVATE KEY" if fmt == "ssleay" else "PRIVATE KEY"
+        vc.prove("private.armour-of-what-to_der-returned", out2 == D.topem(b"PRIVATE-DER-BYTES", label))
+        got2 = calls2[0] if calls2 else ((), {})
+        args2 = dict(zip(("point_encoding", "format", "curve_parameters_encoding"), got2[0]))
+        args2.update(got2[1])
+        vc.prove("private.every-option-handed-to-to_der", len(calls2) == 1 and args2.get("point_encoding") == pe
+                 and args2.get("format") == fmt and args2.get("curve_parameters_encoding") == cpe, repr(got2))
+        vc.cover("pem")
+        return
+    vc.prove("public.armour-of-what-to_der-returned", D.unpem(vk.to_pem(pe, cpe)) == vk.to_der(pe, cpe))
+    vc.prove("private.armour-of-what-to_der-returned", D.unpem(sk.to_pem(pe, fmt, cpe)) == sk.to_der(pe, fmt, cpe))
+
+
+@proof("C19/from_pem=from_der(unarmoured,same-options)", functions=[(KEYS, "VerifyingKey.from_pem"), (KEYS, "SigningKey.from_pem")],
+       family=lambda seed, tier: [dict()])
+def from_pem_forwards(vc):
+    import hashlib
+    K = vc.module(KEYS)
+    D = vc.module(DER)
+    HF, VE, VCE = hashlib.sha384, ("uncompressed", "hybrid"), ("explicit",)
+    calls = []
+    orig = K.VerifyingKey.__dict__["from_der"]
+    vc.patch(K.VerifyingKey, "from_der", classmethod(lambda cls, *a, **k: (calls.append((a, k)), "VK")[1])) if vc.symbolic else None
+    if not vc.symbolic:
+        K.VerifyingKey.from_der = classmethod(lambda cls, *a, **k: (calls.append((a, k)), "VK")[1])
+    try:
+        pem = D.topem(b"SOME-DER", "PUBLIC KEY")
+        out = K.VerifyingKey.from_pem(pem, HF, VE, VCE)
+    finally:
+        if not vc.symbolic:
+            K.VerifyingKey.from_der = orig
+    a, k = calls[0] if calls else ((), {})
+    got = dict(zip(("string", "hashfunc", "valid_encodings", "valid_curve_encodings"), a))
+    got.update(k)
+    vc.ground("public.from_pem->from_der", out == "VK" and len(calls) == 1 and got.get("string") == b"SOME-DER" and got.get("hashfunc") is HF
+              and got.get("valid_encodings") is VE and got.get("valid_curve_encodings") is VCE, repr(got)[:200])
+    calls2 = []
+    orig2 = K.SigningKey.__dict__["from_der"]
+    if vc.symbolic:
+        vc.patch(K.SigningKey, "from_der", classmethod(lambda cls, *a, **k: (calls2.append((a, k)), "SK")[1]))
+    else:
+        K.SigningKey.from_der = classmethod(lambda cls, *a, **k: (calls2.append((a, k)), "SK")[1])
+    try:
+        pem2 = D.topem(b"PRIV-DER", "EC PRIVATE KEY")
+        out2 = K.SigningKey.from_pem(pem2, HF, VCE)
+    finally:
+        if not vc.symbolic:
+            K.SigningKey.from_der = orig2
+    a, k = calls2[0] if calls2 else ((), {})
+    got2 = dict(zip(("string", "hashfunc", "valid_curve_encodings"), a))
+    got2.update(k)
+    vc.ground("private.from_pem->from_der", out2 == "SK" and len(calls2) == 1 and got2.get("string") == b"PRIV-DER"
+              and got2.get("hashfunc") is HF and got2.get("valid_curve_encodings") is VCE, repr(got2)[:200])
+    vc.cover("from_pem")
